@@ -1009,7 +1009,16 @@ def builtin_map(rows):
 
 
 def run_histories(cases):
-    return common.run_impl("c19_impl", cases, procs=min(common.NCPU, max(1, len(cases) // 6)))
+    """Each case in a fresh interpreter.  A case that did not come back (time limit of the fresh interpreter on a
+    loaded machine, a killed process) is run once more, alone, before it is reported as not run; cases with a time
+    limit of their own (the backtracking probe) are not retried."""
+    res = common.run_impl("c19_impl", cases, procs=min(common.NCPU, max(1, len(cases) // 6)))
+    again = [i for i, (c, r) in enumerate(zip(cases, res))
+             if isinstance(r, dict) and ("timeout" in r or "crash" in r) and "timeout" not in c]
+    if again and len(again) <= 20:
+        for i, r in zip(again, common.run_impl("c19_impl", [cases[i] for i in again], procs=1)):
+            res[i] = r
+    return res
 
 
 def check(run):
